@@ -363,6 +363,10 @@ func runLoop(t *testing.T, spec Spec, tier string, o *out, known map[string]bool
 		if os.Getenv("VERIF_DIGESTS") == "1" && res.Failure == nil {
 			o.put(Record{Type: "digest", Idx: i, Digest: fmt.Sprintf("%016x", res.Digest)})
 		}
+		if res.Failure != nil && res.Failure.Rule == sim.DiscardRule {
+			agg.Counts["runs_discarded_deliberate_crash"]++
+			continue
+		}
 		if res.Failure != nil {
 			rec := Record{Type: "fail", Idx: i, Seed: seed, Rule: res.Failure.Rule, Detail: res.Failure.Detail,
 				Decisions: res.Decisions, Digest: fmt.Sprintf("%016x", res.Digest), Steps: res.Steps}
